@@ -753,7 +753,9 @@ fn gen_value(src: &mut Src, depth: usize) -> V {
         _ => V::Array(Some(src.list(6, 2, 3, |s| gen_value(s, depth + 1)))),
     }
 }
-const NAMES: &[&str] = &["PING", "ECHO", "SET", "GET", "APPEND", "STRLEN", "INCR", "LPUSH", "RPUSH", "LRANGE", "DEL", "EXISTS", "MGET", "TYPE", "HSET", "HGET", "NOSUCH", "get", "LLEN", "SADD", "SCARD"];
+const NAMES: &[&str] = &["PING", "ECHO", "SET", "GET", "APPEND", "STRLEN", "INCR", "LPUSH", "RPUSH", "LRANGE", "DEL", "EXISTS", "MGET", "TYPE", "HSET", "HGET", "NOSUCH", "get", "LLEN", "SADD", "SCARD",
+    // commands whose argument parser quotes a bad option or subcommand back in its error text
+    "EXPIRE", "SCAN", "SCRIPT", "ACL", "ZRANGEBYSCORE", "OBJECT", "CONFIG", "CLIENT", "ZADD", "LMOVE", "GETEX"];
 /// A command as an array of bulk strings: mostly well-formed, sometimes wrong arity, sometimes a
 /// name or argument made of client-chosen bytes (CR, LF, quotes, non-UTF-8).
 fn gen_command(src: &mut Src) -> Vec<Vec<u8>> {
@@ -773,6 +775,14 @@ fn gen_command(src: &mut Src) -> Vec<Vec<u8>> {
         "MGET" => vec![key(src), key(src)],
         "HSET" => vec![key(src), b"f".to_vec(), val(src)],
         "HGET" => vec![key(src), b"f".to_vec()],
+        // the option / subcommand position takes client-chosen bytes half of the time
+        "EXPIRE" => vec![key(src), b"10".to_vec(), if src.below(2) == 0 { hostile[src.idx(hostile.len())].to_vec() } else { b"NX".to_vec() }],
+        "SCAN" => vec![b"0".to_vec(), if src.below(2) == 0 { hostile[src.idx(hostile.len())].to_vec() } else { b"COUNT".to_vec() }, b"5".to_vec()],
+        "SCRIPT" | "ACL" | "OBJECT" | "CONFIG" | "CLIENT" => vec![if src.below(2) == 0 { hostile[src.idx(hostile.len())].to_vec() } else { b"HELP".to_vec() }, key(src)],
+        "ZRANGEBYSCORE" => vec![key(src), b"0".to_vec(), b"1".to_vec(), if src.below(2) == 0 { hostile[src.idx(hostile.len())].to_vec() } else { b"WITHSCORES".to_vec() }],
+        "ZADD" => vec![key(src), if src.below(2) == 0 { hostile[src.idx(hostile.len())].to_vec() } else { b"NX".to_vec() }, b"1".to_vec(), b"m".to_vec()],
+        "LMOVE" => vec![key(src), key(src), if src.below(2) == 0 { hostile[src.idx(hostile.len())].to_vec() } else { b"LEFT".to_vec() }, b"RIGHT".to_vec()],
+        "GETEX" => vec![key(src), if src.below(2) == 0 { hostile[src.idx(hostile.len())].to_vec() } else { b"PERSIST".to_vec() }],
         _ => if src.below(2) == 1 { vec![val(src)] } else { vec![] },
     };
     match src.below(12) { 10 => { args.pop(); } 11 => args.push(val(src)), _ => {} }
